@@ -82,6 +82,12 @@ var announcePool = [][]string{
 	{"permessage-deflate; server_no_context_takeover, permessage-deflate; client_no_context_takeover"},
 	{"permessage-deflate; client_no_context_takeover", "permessage-deflate; server_no_context_takeover"},
 	{"permessage-deflate, foo; server_no_context_takeover; client_no_context_takeover"},
+	// quoted-pairs inside a quoted parameter value, and every token character
+	// in another extension's parameters
+	{`permessage-deflate; server_no_context_takeover; client_no_context_takeover; server_max_window_bits="1\5"`},
+	{`permessage-deflate; x="a\"b\\"; server_no_context_takeover; client_no_context_takeover`},
+	{"x-foo; mode=a~b, permessage-deflate; server_no_context_takeover; client_no_context_takeover"},
+	{"x-foo; m`=!#$%&'*+-.^_|~, permessage-deflate; server_no_context_takeover; client_no_context_takeover"},
 }
 
 // genExtLines composes an extension header: 1-4 well-formed elements (at most
